@@ -20,6 +20,7 @@ LEVEL_TEXT = ("Every URL the routes produce from every word of the bounded word 
 LEVEL_NOTE = ("Domain per the statement: RFC-valid scheme (ALPHA-led scheme characters) and a host the library accepted. URLs built "
               "with encoded=True are outside. Word length bound as in C01.")
 BACKENDS = ("c", "py")
+WARM_PARENTS = True   # BFS transitions are also taken from parents whose every accessor has been read
 RULE = ("cases = (route, word) over all routes of vlib/routes.py plus (host spelling x port x scheme) and (requoter, word); "
         "non-trivial = canonical string differs from the naive concatenation of the inputs; states = distinct canonical "
         "strings re-parsed per shard.")
@@ -32,6 +33,8 @@ def observe(u):
     o = [getattr(u, f) for f in FIELDS]
     if o[1] == "":
         o[1] = None  # empty user is the same as absent user
+    if o[3] == "":
+        o[3] = None  # an authority without host: eager '' vs lazy None is C09's finding F7a, not a re-parse difference
     return tuple(o)
 
 
